@@ -12,6 +12,7 @@ import SoyVerif.Ops.Writer
 import SoyVerif.Ops.Escape
 import SoyVerif.Ops.Value
 import SoyVerif.Ops.Msg
+import SoyVerif.Ops.JsGen
 
 open SoyVerif SoyVerif.Ops
 
@@ -23,7 +24,8 @@ def allOps : List Op :=
   Ops.Writer.ops ++
   Ops.Escape.ops ++
   Ops.Value.ops ++
-  Ops.Msg.ops
+  Ops.Msg.ops ++
+  Ops.JsGen.ops
 
 def handle (op : String) (f : List String) : String :=
   match allOps.find? (·.1 == op) with
